@@ -2,3 +2,4 @@ import MhlProps.Proofs.CodecLemmas
 import MhlProps.Proofs.C4Lemmas
 import MhlProps.Proofs.HashingLemmas
 import MhlProps.C01
+import MhlProps.C04
